@@ -497,6 +497,10 @@ QUICK_PAIRS = [
     ("S1", "get_or_create_sub_element/create_which", "create_sub_element/ok"),
     ("S1", "get_or_create_named_sub_element/create_which", "create_named_sub_element/ok"),
     ("S1", "get_or_create_sub_element/get", "remove_sub_element_kind/ok"),
+    # add_to_file where the ancestors' file sets need extending, against readers / writers walking down through those ancestors
+    ("S2", "add_to_file/ancestor_needs_extension", "serialize_files/model"), ("S2", "add_to_file/ancestor_needs_extension", "serialize/element"),
+    ("S2", "add_to_file/ancestor_needs_extension", "serialize/file"), ("S2", "add_to_file/ancestor_needs_extension", "sort/model"),
+    ("S2", "add_to_file/ancestor_needs_extension", "remove_sub_element/subtree"), ("S2", "add_to_file/ancestor_needs_extension", "elements_dfs/model"),
     # a move whose destination lies below the moved element's current parent, against readers / writers walking down from that parent
     ("S3", "move_element_here/into_sibling_subtree", "serialize/element"), ("S3", "move_element_here/into_sibling_subtree", "serialize/file"),
     ("S3", "move_element_here_at/into_sibling_subtree", "sort/model"), ("S3", "move_element_here/into_sibling_subtree", "remove_sub_element/subtree"),
